@@ -1044,7 +1044,12 @@ class OptionStore:
         elif isinstance(opt.deprecated, str):
             mlog.deprecation(f'Option "{error_key}" is replaced by {opt.deprecated!r}')
             # Change both this aption and the new one pointed to.
-            changed |= self.set_option(key.evolve(name=opt.deprecated), new_value, first_invocation)
+            newkey = key.evolve(name=opt.deprecated)
+            if newkey.subproject == '' and newkey not in self.options:
+                # Replaced by a built-in or module option, which the top-level
+                # project sets for the whole build, not for itself only.
+                newkey = newkey.evolve(subproject=None)
+            changed |= self.set_option(newkey, new_value, first_invocation)
 
         new_value = opt.validate_value(new_value)
         if key in self.options:
